@@ -38,6 +38,7 @@ from numpy import (
     delete,
     fromiter,
     indices as array_indices,
+    inf,
     isinf,
     isnan,
     isneginf,
@@ -204,8 +205,9 @@ class Element(ABC):
     def __copy__(self) -> "Element":
         return (
             type(self)()
-            .set_lower_limits(**self.get_lower_limits())
+            .set_lower_limits(**{k: -inf for k in self.get_lower_limits()})
             .set_upper_limits(**self.get_upper_limits())
+            .set_lower_limits(**self.get_lower_limits())
             .set_values(**self.get_values())
             .set_fixed(**self.are_fixed())
             .set_label(self._label)
@@ -542,6 +544,10 @@ class Element(ABC):
             The values can be anything.
         """
         self.set_values(**self.get_default_values(*args, **kwargs))
+        self.set_lower_limits(
+            **{k: -inf for k in self.get_default_lower_limits(*args, **kwargs)}
+        )
+        self.set_upper_limits(**self.get_default_upper_limits(*args, **kwargs))
         self.set_lower_limits(**self.get_default_lower_limits(*args, **kwargs))
         self.set_upper_limits(**self.get_default_upper_limits(*args, **kwargs))
         self.set_fixed(**self.are_fixed_by_default(*args, **kwargs))
@@ -556,6 +562,8 @@ class Element(ABC):
             A string key corresponding to a parameter.
         """
         self.set_values(key, self.get_default_value(key))
+        self.set_lower_limits(key, -inf)
+        self.set_upper_limits(key, self.get_default_upper_limit(key))
         self.set_lower_limits(key, self.get_default_lower_limit(key))
         self.set_upper_limits(key, self.get_default_upper_limit(key))
         self.set_fixed(key, self.is_fixed_by_default(key))
@@ -1675,8 +1683,9 @@ class Container(Element):
                     for k, v in self.get_subcircuits().items()
                 },
             )
-            .set_lower_limits(**self.get_lower_limits())
+            .set_lower_limits(**{k: -inf for k in self.get_lower_limits()})
             .set_upper_limits(**self.get_upper_limits())
+            .set_lower_limits(**self.get_lower_limits())
             .set_fixed(**self.are_fixed())
             .set_label(self._label)
         )
@@ -1694,8 +1703,9 @@ class Container(Element):
                         for k, v in self.get_subcircuits().items()
                     },
                 )
-                .set_lower_limits(**self.get_lower_limits())
+                .set_lower_limits(**{k: -inf for k in self.get_lower_limits()})
                 .set_upper_limits(**self.get_upper_limits())
+                .set_lower_limits(**self.get_lower_limits())
                 .set_fixed(**self.are_fixed())
                 .set_label(self._label)
             )
